@@ -36,7 +36,7 @@ const maxRetries = 20
 
 var (
 	hungCalls    int // calls left blocked for good (only on code that violates C32)
-	skippedSched int // behaviours whose semaphore order could not be realised
+	looseSched   int // behaviours whose semaphore order could not be realised (followed loosely)
 	retriedSched int
 )
 
@@ -253,8 +253,8 @@ type stepper struct {
 	variants  []int
 	probeAlt  int
 
-	c         *call
-	abandoned bool
+	c    *call
+	free bool // the behaviour's semaphore order was not realised: follow it loosely, judge only held/dupsafe
 }
 
 func (s *stepper) Begin(b replay.Behaviour, rng *rand.Rand) error {
@@ -294,7 +294,7 @@ func (s *stepper) Begin(b replay.Behaviour, rng *rand.Rand) error {
 			s.mult = small[rng.Intn(len(small))]
 		}
 	}
-	s.abandoned = false
+	s.free = false
 	s.c = nil
 	return nil
 }
@@ -468,6 +468,23 @@ func (s *stepper) observe() replay.Obs {
 	c.mu.Lock()
 	simple := c.simple != nil
 	c.mu.Unlock()
+	if len(l) == 0 && !simple {
+		// Nothing is parked and the call has not returned. Before calling that a
+		// hang, give any timer-driven implementation an hour of virtual time.
+		time.Sleep(time.Hour)
+		synctest.Wait()
+		select {
+		case o := <-c.done:
+			c.res = &o
+			return s.observe()
+		default:
+		}
+		l = c.chunks()
+		obs["reqs"] = l
+		c.mu.Lock()
+		simple = c.simple != nil
+		c.mu.Unlock()
+	}
 	if len(l) > 0 || simple {
 		obs["ret"] = "pending"
 	} else {
@@ -494,6 +511,9 @@ func (s *stepper) exec(i int) (replay.Obs, error) {
 		p := s.c.simple
 		s.c.simple = nil
 		s.c.mu.Unlock()
+		if p == nil && s.free {
+			break
+		}
 		if p == nil {
 			return nil, fmt.Errorf("SimpleGet: no plain GET arrived at the server")
 		}
@@ -502,6 +522,14 @@ func (s *stepper) exec(i int) (replay.Obs, error) {
 		synctest.Wait()
 		ch := replay.Int(st.Args, "c")
 		p := s.c.take(ch)
+		if p == nil && s.free {
+			if l := s.c.chunks(); len(l) > 0 {
+				p = s.c.take(l[0])
+			}
+			if p == nil {
+				break // nothing parked (the call may have returned already)
+			}
+		}
 		if p == nil {
 			return nil, errNoRequest
 		}
@@ -521,7 +549,22 @@ func (s *stepper) exec(i int) (replay.Obs, error) {
 	if _, busy := st.Exp["busy"]; busy {
 		return replay.Obs{}, nil
 	}
-	return s.observe(), nil
+	obs := s.observe()
+	if s.free {
+		// the model's step-by-step prediction does not apply to this run; the two
+		// clauses of C32 do, on any run
+		loose := replay.Obs{"held": obs["held"], "dupsafe": obs["dupsafe"]}
+		if n, ok := obs["__note__"]; ok {
+			loose["__note__"] = n
+		}
+		return loose, nil
+	}
+	return obs, nil
+}
+
+// violates: the observation breaks C32 by itself, whatever the model says.
+func violates(obs replay.Obs) bool {
+	return obs["held"] == false || obs["dupsafe"] == false
 }
 
 var errNoRequest = errors.New("no request for that chunk is parked at the server")
@@ -540,14 +583,14 @@ func sameSchedule(st replay.Step, obs replay.Obs) bool {
 }
 
 func (s *stepper) Step(i int, st replay.Step) (replay.Obs, error) {
-	if s.abandoned {
-		return replay.Obs{"__skip__": true}, nil
-	}
 	obs, err := s.exec(i)
-	contended := s.maxParallel < 2*s.numChunks
-	if err == nil && sameSchedule(st, obs) {
+	if s.free {
+		return obs, err
+	}
+	if err == nil && (sameSchedule(st, obs) || violates(obs)) {
 		return obs, nil
 	}
+	contended := s.maxParallel < 2*s.numChunks
 	if !contended || (err != nil && !errors.Is(err, errNoRequest)) {
 		if err != nil {
 			return nil, err
@@ -556,7 +599,6 @@ func (s *stepper) Step(i int, st replay.Step) (replay.Obs, error) {
 	}
 	// Which waiting goroutine gets a freed semaphore slot is up to the Go
 	// scheduler. Run the prefix again until it takes the order TLC chose.
-	first := obs
 	for r := 0; r < maxRetries; r++ {
 		retriedSched++
 		s.teardown()
@@ -567,6 +609,9 @@ func (s *stepper) Step(i int, st replay.Step) (replay.Obs, error) {
 			if err != nil && !errors.Is(err, errNoRequest) {
 				return nil, err
 			}
+			if err == nil && violates(o) {
+				return o, nil
+			}
 			if err != nil || !sameSchedule(s.b[j], o) {
 				ok = false
 				break
@@ -576,19 +621,27 @@ func (s *stepper) Step(i int, st replay.Step) (replay.Obs, error) {
 			return o, nil
 		}
 	}
-	skippedSched++
-	s.abandoned = true
-	note := fmt.Sprintf("semaphore order of the behaviour not realised in %d runs", maxRetries)
-	if first != nil {
-		note += fmt.Sprintf("; first run held %v", first["reqs"])
+	// Not realised: run the behaviour's answers loosely (same kinds, whatever
+	// request is parked) and judge only what holds of every run.
+	looseSched++
+	s.teardown()
+	s.free = true
+	var o replay.Obs
+	for j := 0; j <= i; j++ {
+		if o, err = s.exec(j); err != nil {
+			return nil, err
+		}
+		if violates(o) {
+			return o, nil
+		}
 	}
-	return replay.Obs{"__skip__": true, "__note__": note}, nil
+	return o, nil
 }
 
 func TestReplay(t *testing.T) {
 	synctest.Test(t, func(t *testing.T) {
 		replay.Run(t, "RangeFetch", func() replay.Stepper { return &stepper{} })
-		fmt.Printf("rangefetch: schedule retries=%d unrealised=%d hung calls=%d\n", retriedSched, skippedSched, hungCalls)
+		fmt.Printf("rangefetch: schedule retries=%d followed loosely=%d hung calls=%d\n", retriedSched, looseSched, hungCalls)
 		if hungCalls > 0 {
 			// Goroutines of the function under test are blocked for good; the bubble
 			// could never finish. The report is already written.
